@@ -298,6 +298,18 @@ pub fn run(ctx: &Ctx) -> Report {
         } else {
             inputs
         };
+        // another sixteenth of the bar streams print an exact zero close now and then (a spread or a rebased
+        // series touching zero; the bar stays valid: low <= 0 = close <= high)
+        let zero_close = bars && idx % 16 == 5;
+        let inputs: Vec<In> = if zero_close {
+            rep.count("streams.bars_with_exact_zero_closes");
+            inputs.iter().enumerate().map(|(i, x)| match x {
+                In::B(b) if i % 11 == 5 => In::B(crate::inst::Bar { c: 0.0, l: b.l.min(0.0), h: b.h.max(0.0), ..*b }),
+                o => *o,
+            }).collect()
+        } else {
+            inputs
+        };
         let head: Vec<f64> = inputs.iter().take(16).flat_map(|x| match x {
             In::S(v) => vec![*v],
             In::B(b) => b.fields().to_vec(),
